@@ -48,6 +48,13 @@ def check_ref(rep, crate, prop):
             rep.ok('REF', key, e['path'], 'private helper of the reference table no longer exists (inlined or unused); the summaries of its former callers cover its behaviour', fn=e['path'])
             continue
         if b is None:
+            b = _moved_impl(crate, e, {x['path'] for x in load_refs()})
+            if b is not None:
+                n += 1
+                rep.ok('REF', key, loc(b.raw), f'the method now lives at {b.path} (an impl of the same trait method for a crate-private type that was '
+                       'renamed or moved) and has the reference summary', fn=e['path'])
+                continue
+        if b is None:
             rep.bad('REF', key, e['path'], 'function not found', 'the model function of the reference table', fn=e['path'],
                     why='fail closed: a model function disappeared or was renamed; re-review and regenerate the reference')
             continue
@@ -79,6 +86,32 @@ def check_ref(rep, crate, prop):
                         'reviewed one; renames, re-ordering, let-introduction and helper extraction do not change a summary')
     n += check_inventory(rep, crate, prop)
     return n
+
+
+def _moved_impl(crate, e, known):
+    """the reference function `<PrivateType as Trait>::m` is gone: the unique other impl of Trait::m for a crate-private type,
+    not itself in the reference table, whose summary is the reference summary (the type was renamed / hoisted out of a function)"""
+    import re
+    m = re.match(r'^<(.+) as ([^<>]+(?:<.*>)?)>::(\w+)$', e['path'])
+    if not m:
+        return None
+    trait, meth = m.group(2).split('<')[0], m.group(3)
+    hits = []
+    for b in crate.body_list:
+        if b.path in known or b.raw.get('assoc_name') != meth or b.raw.get('impl_trait') != trait:
+            continue
+        from .evalr import adt_head, strip_refs
+        st = re.sub(r'/#\d+', '', strip_refs(b.raw.get('self_ty', '')))
+        adt = crate.adts.get(adt_head(st))
+        if adt is None or str(adt.get('vis', '')) == 'Public':
+            continue
+        try:
+            got, _ = S.summarise(crate, b)
+        except RecursionError:
+            continue
+        if got.split('\n') == e['summary']:
+            hits.append(b)
+    return hits[0] if len(hits) == 1 else None
 
 
 def struct_ok(st):
